@@ -135,6 +135,10 @@ int lrtr_ipv6_str_to_addr(const char *a, struct lrtr_ipv6_addr *ip)
 		words[i++] = j;
 	}
 
+	/* Without :: all eight groups must be present */
+	if (hfil < 0 && i != 8)
+		return -1;
+
 	/* Replace :: with an appropriate quantity of zeros */
 	if (hfil >= 0) {
 		j = 8 - i;
@@ -146,7 +150,7 @@ int lrtr_ipv6_str_to_addr(const char *a, struct lrtr_ipv6_addr *ip)
 
 	/* Convert the address to lrtr_ip_addr format */
 	for (i = 0; i < 4; i++)
-		o[i] = (words[2 * i] << 16) | words[2 * i + 1];
+		o[i] = ((uint32_t)words[2 * i] << 16) | words[2 * i + 1];
 	return 0;
 }
 
